@@ -82,7 +82,7 @@ func (c c17) Run(ctx *core.Ctx) error {
 			cases = append(cases, core.J(c17Case{Prefix: []c17Call{a}, Len: 3}))
 		}
 	}
-	ctx.Ev.Rule = "every program of up to 2 calls (3 over the reduced alphabet; 3 over the full one in thorough) of put/delete over keys {nil, \"\", a, ff fe, 2 KiB} x values {nil, \"\", v, ff fe}, executed once through the string flavour and once through the byte flavour on fresh databases; per call the error class of both flavours must agree and empty/nil keys or values must be rejected by Put/PutBytes; observations (Get and GetBytes of every key) are taken directly, after a forced rotation + flush, and after a clean Close + Open, and must all equal the reference map in which rejected calls have no effect. distinct = program; non-trivial = the program mixes at least one rejected and one accepted call"
+	ctx.Ev.Rule = "every program of up to 2 calls (3 over the reduced alphabet; 3 over the full one in thorough) of put/delete over keys {nil, \"\", a, ff fe, 2 KiB} x values {nil, \"\", v, ff fe}, executed once through the string flavour, once through the byte flavour and (programs of 2 and more calls) once through the byte flavour with a memstore flush after every call, each on a fresh database; per call the error class of both flavours must agree and empty/nil keys or values must be rejected by Put/PutBytes; observations (Get and GetBytes of every key) are taken directly, after a forced rotation + flush, and after a clean Close + Open, and must all equal the reference map in which rejected calls have no effect. distinct = program; non-trivial = the program mixes at least one rejected and one accepted call"
 	ctx.CaseTimeout = 0
 	rs := ctx.Pmap(cases)
 	ctx.Fold(rs, cases)
@@ -254,7 +254,7 @@ func errClass(err error) string {
 	}
 }
 
-func (c c17) runFlavour(dir string, prog []c17Call, bytesFlavour bool, r *core.Result) (o c17Obs) {
+func (c c17) runFlavour(dir string, prog []c17Call, bytesFlavour bool, flushEach bool, r *core.Result) (o c17Obs) {
 	keys, vals := c17Keys(), c17Vals()
 	o.obs = map[string]string{}
 	defer func() {
@@ -291,6 +291,13 @@ func (c c17) runFlavour(dir string, prog []c17Call, bytesFlavour bool, r *core.R
 			}
 		}
 		o.errs = append(o.errs, errClass(err))
+		if flushEach {
+			// every call ends up in a table of its own: a later call has to shadow what an older table holds
+			if err := db.VerifRotateAndWait(); err != nil {
+				o.fail = "rotation failed: " + err.Error()
+				return
+			}
+		}
 	}
 	read := func() string {
 		var b strings.Builder
@@ -391,18 +398,22 @@ func (c c17) runProgram(w *core.WCtx, prog []c17Call, r *core.Result) {
 			r.Viol = append(r.Viol, core.Violation{Sig: sig, Desc: fmt.Sprintf("[%s]: %s", c17ProgStr(prog), fmt.Sprintf(f, a...)), Case: core.J(c17Case{Only: prog})})
 		}
 	}
-	var res [2]c17Obs
-	for f := 0; f < 2; f++ {
+	var res [3]c17Obs
+	for f := 0; f < 3; f++ {
+		if f == 2 && len(prog) < 2 {
+			res[f] = res[1]
+			continue
+		}
 		dir := w.Dir()
-		res[f] = c.runFlavour(dir, prog, f == 1, r)
+		res[f] = c.runFlavour(dir, prog, f >= 1, f == 2, r)
 		os.RemoveAll(dir)
 		r.Traces++
 	}
 	if hasRejected && hasAccepted {
 		r.Keys = append(r.Keys, core.HashKey(c17ProgStr(prog)))
 	}
-	names := []string{"string", "bytes"}
-	for f := 0; f < 2; f++ {
+	names := []string{"string", "bytes", "bytes (memstore flushed after every call)"}
+	for f := 0; f < 3; f++ {
 		o := res[f]
 		for i := range o.errs {
 			r.Evals++
